@@ -11,6 +11,7 @@ import (
 	"crypto/sha256"
 	"crypto/x509"
 	"encoding/base64"
+	"encoding/binary"
 	"encoding/hex"
 	"fmt"
 	"math/big"
@@ -139,6 +140,31 @@ func checkDigest(c *vm.Ctx, r *vm.Rand, i int, counts map[string]int) {
 	}
 	secret := r.Bytes(16)
 	key := r.Bytes([]int{0, 1, 162, 294}[r.Intn(4)])
+	checkDigestOf(c, serverID, secret, key, i, counts)
+}
+
+// steerDigest searches (with the reference SHA-1 only) for a shared secret that gives the digest a rare shape.
+func steerDigest(c *vm.Ctx, r *vm.Rand, name string, tries int, shape func(d [20]byte) bool, counts map[string]int) {
+	serverID := fmt.Sprint(r.Intn(1000000))
+	key := r.Bytes(162)
+	secret := r.Bytes(16)
+	for t := 0; t < tries; t++ {
+		binary.BigEndian.PutUint64(secret[8:], uint64(t))
+		h := sha1.New()
+		h.Write([]byte(serverID))
+		h.Write(secret)
+		h.Write(key)
+		var d [20]byte
+		h.Sum(d[:0])
+		if shape(d) {
+			counts["steered."+name]++
+			checkDigestOf(c, serverID, secret, key, 99, counts)
+			return
+		}
+	}
+}
+
+func checkDigestOf(c *vm.Ctx, serverID string, secret, key []byte, i int, counts map[string]int) {
 	want, d := refDigest(serverID, secret, key)
 	wit := func() any {
 		return map[string]any{"server_id": serverID, "secret": vm.Hex(secret), "public_key": vm.Hex(key), "sha1": hex.EncodeToString(d[:]), "java": want}
@@ -295,7 +321,9 @@ func checkOtherKeys(c *vm.Ctx, r *vm.Rand, testServices *rsa.PrivateKey, lengths
 	for _, L := range lengths {
 		K := r.Bytes(L)
 		sig, _ := rsa.SignPKCS1v15(rand.Reader, testServices, crypto.SHA256, servicesDigest(K))
-		wit := func() any { return map[string]any{"profile_key_len": L, "profile_key_hex": vm.Hex(K), "signature_hex": vm.Hex(sig)} }
+		wit := func() any {
+			return map[string]any{"profile_key_len": L, "profile_key_hex": vm.Hex(K), "signature_hex": vm.Hex(sig)}
+		}
 		var ok bool
 		if c.Guard("sig/other-key", wit, func() { ok = user.VerifySignature(K, sig) }) {
 			continue
@@ -378,6 +406,16 @@ func run(c *vm.Ctx) {
 		checkDigest(c, dr, i, counts)
 	}
 	c.EvalN(int64(nd), vm.HashStr("digest-bulk", fmt.Sprint(c.Shard)), true)
+	// shapes too rare to wait for: two leading zero bytes, 0xffff.., carry chains through two and three zero bytes
+	for rep := 0; rep < c.Scale(2, 8); rep++ {
+		steerDigest(c, dr, "two-leading-zero-bytes", 4<<20, func(d [20]byte) bool { return d[0] == 0 && d[1] == 0 }, counts)
+		steerDigest(c, dr, "negative-leading-ffff", 4<<20, func(d [20]byte) bool { return d[0] == 0xff && d[1] == 0xff }, counts)
+		steerDigest(c, dr, "negative-two-trailing-zero-bytes", 8<<20, func(d [20]byte) bool { return d[0]&0x80 != 0 && d[19] == 0 && d[18] == 0 }, counts)
+		steerDigest(c, dr, "nonnegative-two-trailing-zero-bytes", 8<<20, func(d [20]byte) bool { return d[0]&0x80 == 0 && d[19] == 0 && d[18] == 0 }, counts)
+	}
+	if c.Thorough() && c.Shard == 0 {
+		steerDigest(c, dr, "negative-three-trailing-zero-bytes", 1<<29, func(d [20]byte) bool { return d[0]&0x80 != 0 && d[19] == 0 && d[18] == 0 && d[17] == 0 }, counts)
+	}
 	for k, v := range counts {
 		c.CoverN("digest."+k, int64(v))
 	}
